@@ -597,6 +597,211 @@ example : (run { relaySetting with advTls := fun _ => true } {}
     [.mkVerifier (some 1), .honest 0 1 .new, .mkVerifier (some 1), .present 1 [honestCert 1 101 (.hon 0)]]).map
       (fun w => w.acc.map (·.1)) = some [0] := by decide
 
+/-! ### every path through the verifier, both roles -/
+
+/-- **exactly the conjunction**: the verifier returns `nil` if and only if there is exactly one
+certificate, it parses to exactly one, it is inside its validity period, its common name decodes to a
+key, the extension is the signature of *that* key over *this* verifier's nonce and that name — and,
+when the verifier was made for a dialled identity, the URIs (or, without URIs, the name string) and
+the decoded key are the dialled key.  Nothing else lets a chain through, in either role. -/
+theorem c08_verify_iff (s : Suite) (them : Option Key) (n : Nonce) (raw : List Cert) :
+    verifyPeer s them n raw = none ↔
+    ∃ c pub, raw = [c] ∧ c.parses = true ∧ c.count = 1 ∧ x509ok c = true ∧
+      pubFromCN s c.cn = some pub ∧ c.ext = some (.sig pub n c.cn) ∧
+      (∀ t, them = some t → pub = t ∧ expectedOk t c = true) := by
+  constructor
+  · exact verify_ok
+  · rintro ⟨c, pub, rfl, h1, h2, h3, h4, h5, h6⟩
+    cases them with
+    | none => simp [verifyPeer, verifyPeerG, h1, h2, h3, h4, h5, schnorrVerify]
+    | some t =>
+      obtain ⟨rfl, he⟩ := h6 t rfl
+      simp [verifyPeer, verifyPeerG, h1, h2, h3, h4, h5, he, schnorrVerify]
+
+/-- **the dialling role checks everything the accepting role checks, and more**: what the verifier
+made for a dialled identity lets through, the verifier made without one lets through as well -/
+theorem c08_dial_checks_superset (s : Suite) (t : Key) (n : Nonce) (raw : List Cert)
+    (h : verifyPeer s (some t) n raw = none) : verifyPeer s none n raw = none := by
+  obtain ⟨c, pub, hr, h1, h2, h3, h4, h5, _⟩ := (c08_verify_iff s (some t) n raw).mp h
+  exact (c08_verify_iff s none n raw).mpr ⟨c, pub, hr, h1, h2, h3, h4, h5, by intro t' ht; cases ht⟩
+
+/-- **tests only ever refuse**: with any subset of the switchable tests turned off, everything the
+full verifier accepts is still accepted (no test is needed to *enable* another one) -/
+theorem c08_checks_monotone (en : Check → Bool) (s : Suite) (them : Option Key) (n : Nonce) (raw : List Cert)
+    (h : verifyPeer s them n raw = none) : verifyPeerG en s them n raw = none := by
+  obtain ⟨c, pub, rfl, h1, h2, h3, h4, h5, h6⟩ := (c08_verify_iff s them n raw).mp h
+  cases them with
+  | none => simp [verifyPeerG, h1, h2, h3, h4, h5, schnorrVerify]
+  | some t =>
+    obtain ⟨rfl, he⟩ := h6 t rfl
+    simp [verifyPeerG, h1, h2, h3, h4, h5, he, schnorrVerify]
+
+/-- after a successful handshake the router's two certificate-related refusals cannot happen (there
+is a peer certificate, and its name decodes — the verifier has just decoded it): on a TLS connection
+`receiveServerIdentity` can only fail on what the peer *sends* -/
+theorem c08_identity_errors_unreachable (s : Suite) (them : Option Key) (n : Nonce) (raw : List Cert)
+    (first : First) (h : verifyPeer s them n raw = none) :
+    receiveServerIdentity s raw first ≠ .error .noPeerCert ∧
+    receiveServerIdentity s raw first ≠ .error .cnDecodes := by
+  obtain ⟨c, pub, rfl, _, _, _, h4, _, _⟩ := (c08_verify_iff s them n raw).mp h
+  cases first with
+  | error => simp [receiveServerIdentity]
+  | other => simp [receiveServerIdentity]
+  | identity dst =>
+    simp only [receiveServerIdentity, h4]
+    split <;> simp
+
+/-- the router compares the declared **key** with the proven one; everything else the peer declares
+(address, the deprecated `ID` field, description) plays no part in the decision -/
+theorem c08_declared_rest_irrelevant (s : Suite) (raw : List Cert) (k : Key) (r r' : Nat) :
+    (receiveServerIdentity s raw (.identity ⟨k, r⟩)).isOk = (receiveServerIdentity s raw (.identity ⟨k, r'⟩)).isOk := by
+  simp only [receiveServerIdentity]
+  cases raw with
+  | nil => rfl
+  | cons c rest =>
+    simp only
+    cases pubFromCN s c.cn with
+    | none => rfl
+    | some pub => simp only; split <;> rfl
+
+/-- **names are compared as keys, not as strings, where the proof is concerned**: a certificate whose
+common name is another spelling of `k` (upper-case hex digits, bytes after the key) is accepted by a
+listener, and by a dialler of `k` when a URI names `k` — but only with `k`'s signature over this
+nonce and *that very spelling*; a dialler that has to go by the name string alone refuses it. -/
+theorem c08_noncanonical_name (s : Suite) (k : Key) (t : TlsKey) (n : Nonce) (i : Nat) :
+    let c : Cert := { honestCert k t n with cn := .alt k i, ext := some (.sig k n (.alt k i)) }
+    verifyPeer s none n [c] = none ∧ verifyPeer s (some k) n [c] = none ∧
+    verifyPeer s (some k) n [{ c with uris := [] }] = some .expected ∧
+    (∀ them sg, verifyPeer s them n [{ c with ext := some sg }] = none → sg = .sig k n (.alt k i)) := by
+  refine ⟨?_, ?_, ?_, ?_⟩
+  · simp [verifyPeer, verifyPeerG, honestCert, x509ok, pubFromCN, schnorrVerify]
+  · simp [verifyPeer, verifyPeerG, honestCert, x509ok, expectedOk, pubToCN, pubFromCN, schnorrVerify]
+  · simp [verifyPeer, verifyPeerG, honestCert, x509ok, expectedOk, pubToCN]
+  · intro them sg h
+    obtain ⟨c', pub, hr, _, _, _, h4, h5, _⟩ := verify_ok h
+    simp at hr; subst hr
+    simp [pubFromCN] at h4; subst h4
+    simpa using h5
+
+/-! ### the validity window and clock differences -/
+
+theorem validityAt_ok (nb na now : Int) : validityAt nb na now = .ok ↔ nb ≤ now ∧ now ≤ na := by
+  unfold validityAt
+  by_cases h1 : now < nb
+  · simp [h1] <;> omega
+  · by_cases h2 : na < now
+    · simp [h1, h2] <;> omega
+    · simp [h1, h2] <;> omega
+
+/-- **`certMaker.get`'s window**: a certificate made when the maker's clock shows `made` is inside its
+validity period on the verifier's clock `now` exactly when `made - 5 min ≤ now ≤ made + 2 h`: the
+verifier's clock may be behind the maker's by up to five minutes and ahead by up to two hours; and
+that is also exactly when the honest certificate is accepted, in both roles. -/
+theorem c08_honest_window (s : Suite) (k : Key) (t : TlsKey) (n : Nonce) (made now : Int) (hn : n ≠ .badSize) :
+    ∃ c, certForAt .new k t n made now = some c ∧
+      (x509ok c = true ↔ made - 300 ≤ now ∧ now ≤ made + 7200) ∧
+      (verifyPeer s (some k) n [c] = none ↔ made - 300 ≤ now ∧ now ≤ made + 7200) ∧
+      (verifyPeer s none n [c] = none ↔ made - 300 ≤ now ∧ now ≤ made + 7200) := by
+  have hw : validityAt (certWindow made).1 (certWindow made).2 now = .ok ↔ made - 300 ≤ now ∧ now ≤ made + 7200 := by
+    have := validityAt_ok (made - 300) (made + 7200) now
+    exact this
+  refine ⟨{ honestCert k t n with validity := validityAt (certWindow made).1 (certWindow made).2 now },
+    by simp [certForAt, certFor, hn, honestCert, Style.name], ?_, ?_, ?_⟩
+  · simp only [x509ok, beq_iff_eq]; exact hw
+  · rw [← hw]
+    constructor
+    · intro h
+      obtain ⟨c', _, hr, _, _, h3, _⟩ := verify_ok h
+      simp at hr; subst hr
+      simpa [x509ok] using h3
+    · intro h
+      simp [verifyPeer, verifyPeerG, x509ok, h, honestCert, expectedOk, pubToCN, pubFromCN, schnorrVerify]
+  · rw [← hw]
+    constructor
+    · intro h
+      obtain ⟨c', _, hr, _, _, h3, _⟩ := verify_ok h
+      simp at hr; subst hr
+      simpa [x509ok] using h3
+    · intro h
+      simp [verifyPeer, verifyPeerG, x509ok, h, honestCert, pubFromCN, schnorrVerify]
+
+/-! ### the nonce tunnels: a whole handshake between two honest nodes -/
+
+/-- **two honest nodes**: with the network delivering the server name and the acceptable CAs as they
+were sent, the handshake between the holder of `a` dialling `b` and the holder of `b` succeeds on both
+sides — the nonce of each side's verifier is the nonce the other side signs — for every suite and all
+keys and nonces of the right size. -/
+theorem c08_pair_honest (s : Suite) (a b : Key) (ta tb : TlsKey) (na nb : Nonce)
+    (ha : na ≠ .badSize) (hb : nb ≠ .badSize) :
+    pairHandshake s a b b ta tb na nb Tunnel.id = (none, none) := by
+  simp [pairHandshake, Tunnel.id, clientCertFor, certFor, ha, hb, verifyPeer, verifyPeerG, x509ok, expectedOk,
+    pubToCN, pubFromCN, schnorrVerify, Style.name]
+
+/-- **the tunnels carry exactly the nonce**: whatever the network does to the two strings — if the
+listener finds another string in the server name than the dialler's nonce, the dialler's verifier
+refuses the listener's certificate; if the dialler finds another string (or none) in the acceptable
+CAs than the listener's nonce, the listener's verifier refuses the dialler's; and a dialler that meant
+to reach another key than the listener's refuses in any case. -/
+theorem c08_pair_tunnel (s : Suite) (a b them : Key) (ta tb : TlsKey) (na nb : Nonce) (tun : Tunnel) :
+    (tun.serverName na ≠ na → (pairHandshake s a b them ta tb na nb tun).1 ≠ none) ∧
+    (tun.acceptableCA nb ≠ some nb → (pairHandshake s a b them ta tb na nb tun).2 ≠ none) ∧
+    (them ≠ b → (pairHandshake s a b them ta tb na nb tun).1 ≠ none) := by
+  refine ⟨?_, ?_, ?_⟩
+  · intro hne
+    simp only [pairHandshake]
+    cases hc : certFor .new b tb (tun.serverName na) with
+    | none => simp
+    | some c =>
+      simp only
+      have hext : c.ext = some (.sig b (tun.serverName na) (.new b)) := by
+        simp only [certFor] at hc
+        split at hc
+        · cases hc
+        · simp at hc; subst hc; rfl
+      exact c08_replay_rejected s (some them) na (tun.serverName na) c b (.new b) hext hne
+  · intro hne
+    simp only [pairHandshake]
+    cases hca : tun.acceptableCA nb with
+    | none => simp [clientCertFor]
+    | some n' =>
+      have hn' : n' ≠ nb := fun e => hne (by rw [hca, e])
+      simp only [clientCertFor]
+      cases hc : certFor .new a ta n' with
+      | none => simp
+      | some c =>
+        simp only
+        have hext : c.ext = some (.sig a n' (.new a)) := by
+          simp only [certFor] at hc
+          split at hc
+          · cases hc
+          · simp at hc; subst hc; rfl
+        exact c08_replay_rejected s none nb n' c a (.new a) hext hn'
+  · intro hne
+    simp only [pairHandshake]
+    cases hc : certFor .new b tb (tun.serverName na) with
+    | none => simp
+    | some c =>
+      simp only
+      intro h
+      have hcn : c.cn = .new b := by
+        simp only [certFor] at hc
+        split at hc
+        · cases hc
+        · simp at hc; subst hc; rfl
+      obtain ⟨hk, _⟩ := c08_dialer_reaches_intended s them na [c] h
+      simp [peerKey, hcn, pubFromCN] at hk
+      exact hne hk.symm
+
+/-- an empty list of acceptable CAs, or a string of the wrong size in either tunnel: the node asked
+for a certificate makes none (`getClientCertificate`, `certMaker.get`) and the handshake fails -/
+example : pairHandshake ⟨true⟩ 1 2 2 11 12 (.hon 0) (.hon 1) ⟨fun n => n, fun _ => none⟩ = (none, some .oneRaw) ∧
+    pairHandshake ⟨true⟩ 1 2 2 11 12 (.hon 0) (.hon 1) ⟨fun _ => .badSize, fun n => some n⟩ = (some .oneRaw, none) := by
+  decide
+
+example : ∃ c, certForAt .new 1 11 (.hon 0) 1000 1000 = some c ∧ verifyPeer ⟨true⟩ (some 1) (.hon 0) [c] = none := by
+  obtain ⟨c, hc, _, h, _⟩ := c08_honest_window ⟨true⟩ 1 11 (.hon 0) 1000 1000 (by simp)
+  exact ⟨c, hc, h.mpr (by omega)⟩
+
 /-! ### the code regions the model stands for
 Regenerated from /repo's source on every run (`harness/cmd/astfacts` → `OnetVerif/Shapes.lean`): the
 calls that matter for synchronisation and data flow, the lock regions and (for decision logic) the
